@@ -129,7 +129,7 @@ def key(e):
 
 class C10(Prop):
     ID = "C10"
-    QUICK = 600
+    QUICK = 1300
     THOROUGH = 14000
     RULE = ("case = a C01 case (70%) or a reference world (30%) plus 1-4 insertions (subschema position, foreign name, "
             "value): names from the other drafts' keyword tables (minus the names this draft's keywords consult), "
